@@ -9,7 +9,7 @@ import Driver.Util
 namespace Drv
 open Fit.Integrity
 
-def errName : Err → String
+private def errName : Err → String
   | .eof => "eof" | .notFit => "not-fit" | .crc => "crc" | .defMissing => "def-missing" | .invalidBaseType => "invalid-basetype"
 
 def showResult : Result → String
